@@ -740,11 +740,15 @@ def replay(ctx: Ctx, det: dict) -> int:
     print(f"condition: {src}\n target {ma}.{mi} platform {platform} always_true={list(at)} always_false={list(af)}")
     print(" tokens:", " ".join(c.tokens))
     print(" real infer_condition_value:", st)
-    print(" model (static/run-time/mypy-time per micro variant):", ctx.lean_driver(DRIVER, [model_line(real, c, platform, tm, at, af)])[0])
+    mres = ctx.lean_driver(DRIVER, [model_line(real, c, platform, tm, at, af)])[0]
+    print(" model (static/run-time/mypy-time per micro variant):", mres)
     rc = 0
-    for mc in MICROS:
+    for mc, mr in zip(MICROS, mres.split(";")):
         rt = real.truth(c.code_sub, real.globals(ma, mi, mc, platform, False))
         mt = real.truth(c.code_sub, real.globals(ma, mi, mc, platform, True))
+        if mr != f"{st}/{rt}/{mt}":
+            print(f" correspondence: BROKEN (real {st}/{rt}/{mt}, model {mr})")
+            rc = 1
         print(f" eval with version_info={(ma, mi) + tuple(mc)}: run-time {rt}, with TYPE_CHECKING=True {mt}")
         if st.startswith("CRASH"):
             rc = 1
